@@ -15,6 +15,8 @@ def run(ck, ctx):
     ck.count("call_sites_total", ctx.callgraph.total)
     ck.count("call_sites_resolved", ctx.callgraph.resolved)
     S.t_noglobal(ck, ctx, "C15")
+    # a module-level container of mutable objects must not flow into a parse result (it would be shared by every run / object)
+    S.t_alias(ck, ctx, list(S.run_reachable(ctx)))
     ck.floor("T-NOGLOBAL.handle", 2)
     ck.floor("T-NOGLOBAL.class-attr", 2)
     # the formatter / table classes used by run(): a mutable class-level value would be shared by the runs of all parser objects
